@@ -1,4 +1,4 @@
-//@@ unit props=C12,C19,C06
+//@@ unit props=C12,C19,C06,C10,C14,C16
 // Unit xlsstr: BIFF string readers of src/xls.rs across CONTINUE records (verbatim text).
 #![allow(unused_imports, dead_code, unused_variables, unused_mut, unused_assignments, unexpected_cfgs)]
 use vstd::prelude::*;
@@ -375,10 +375,10 @@ spec fn same_record(a: Record, b: Record) -> bool { a.typ == b.typ && (a.cont is
 //@@ end
 
 #[verifier::loop_isolation(false)] // the initial value of the `mut len` parameter (n0) must stay known inside the loop
-//@@ fn src/xls.rs Record::skip props=C12 entry ret=res
+//@@ fn src/xls.rs Record::skip props=C12,C19 entry ret=res
 //@@ sig
     ensures
-        //# C12.skip_exact
+        //# C12,C19.skip_exact
         res is Ok ==> skip_spec(frags(*old(self)), len as nat) == Some(frags(*final(self))),
         //# C12.skip_err_iff_short
         res is Err <==> total(frags(*old(self))) < len,
@@ -412,7 +412,7 @@ spec fn same_record(a: Record, b: Record) -> bool { a.typ == b.typ && (a.cont is
 //@@ after /len -= [^;]*;/
             proof {
                 let f3 = frags(*self);
-                //# C12.skip_keeps_rest
+                //# C12,C19.skip_keeps_rest
                 // the l skipped bytes are dropped from the front of the current fragment, the rest stays
                 assert(f3 =~= adv(f2, l as int));
                 assert(f3.drop_first() =~= f2.drop_first());
@@ -428,17 +428,17 @@ spec fn same_record(a: Record, b: Record) -> bool { a.typ == b.typ && (a.cont is
 //@@ fn src/xls.rs read_dbcs props=C12,C19 entry ret=res
 //@@ sig
     ensures
-        //# C12.dbcs_concat
+        //# C12,C19.dbcs_concat
         res is Ok ==> dbcs_spec(*encoding, frags(*old(r)), len as nat, high_byte) is Some
             && res->Ok_0@ == dbcs_spec(*encoding, frags(*old(r)), len as nat, high_byte)->Some_0.0,
-        //# C12.dbcs_cursor
+        //# C12,C19.dbcs_cursor
         res is Ok ==> dbcs_spec(*encoding, frags(*old(r)), len as nat, high_byte) is Some
             && frags(*final(r)) == dbcs_spec(*encoding, frags(*old(r)), len as nat, high_byte)->Some_0.1,
-        //# C12.dbcs_units
+        //# C12,C19.dbcs_units
         // the runs that were decoded hold exactly `len` characters (UTF-16 code units) in total
         res is Ok ==> dbcs_segs(frags(*old(r)), len as nat, high_byte) is Some
             && segs_units(dbcs_segs(frags(*old(r)), len as nat, high_byte)->Some_0.0) == len,
-        //# C12.dbcs_err_iff_eos
+        //# C12,C19.dbcs_err_iff_eos
         res is Err <==> dbcs_segs(frags(*old(r)), len as nat, high_byte) is None,
         //# C12.dbcs_err_kind
         res is Err ==> res matches Err(XlsError::EoStream(_)),
@@ -582,9 +582,9 @@ use super::*;
 //@@ fn src/xls.rs read_rich_extended_string props=C12,C19 entry ret=res
 //@@ sig
     ensures
-        //# C12.sst_item
+        //# C12,C19.sst_item
         sst_item(*encoding, frags(*old(r))) is Some ==> res is Ok && res->Ok_0@ == sst_item(*encoding, frags(*old(r)))->Some_0.0,
-        //# C12.sst_item_cursor
+        //# C12,C19.sst_item_cursor
         sst_item(*encoding, frags(*old(r))) is Some ==> res is Ok && frags(*final(r)) == sst_item(*encoding, frags(*old(r)))->Some_0.1,
         //# C12.sst_item_err_iff_malformed
         mem_bounded(frags(*old(r))) ==> (res is Err <==> sst_item(*encoding, frags(*old(r))) is None),
@@ -623,14 +623,14 @@ use super::*;
     let ghost f2 = frags(*r);
     proof {
         if str_hdr(d) is Some {
-            //# C12.sst_item_header_consumed
+            //# C12,C19.sst_item_header_consumed
             // exactly the header (3 bytes + cRun if fRichSt + cbExtRst if fExtSt) has been consumed
             assert(r.data@ =~= d.subrange(h.hlen, d.len() as int));
             lemma_frags_adv(r1, r2, h.hlen);
-            //# C12.sst_item_header_fields
+            //# C12,C19.sst_item_header_fields
             // cch, fHighByte and cRun are the header's fields (cRun only under fRichSt = bit 3)
             assert(cch == h.cch && high_byte == h.hb && c_run == h.crun);
-            //# C12.sst_item_header_cbextrst
+            //# C12,C19.sst_item_header_cbextrst
             // cbExtRst is the header's field (only under fExtSt = bit 2); a negative value becomes a count no record can hold
             assert(if h.cbext >= 0 { cb_ext_rst == h.cbext } else { cb_ext_rst >= 0xffff_ffff_8000_0000usize }) by {
                 if h.cbext < 0 { lemma_neg_i32_as_usize(h.cbext as i32); }
@@ -728,7 +728,7 @@ use super::super::*;
     ensures
         //# C12.sst_len_guard
         old(r).data@.len() < 8 ==> res is Err,
-        //# C12.sst_table
+        //# C12,C19.sst_table
         sst_spec(*encoding, frags(*old(r))) is Some ==> res is Ok && texts(res->Ok_0@) == sst_spec(*encoding, frags(*old(r)))->Some_0,
         //# C19.sst_index
         sst_spec(*encoding, frags(*old(r))) is Some ==> res is Ok && res->Ok_0@.len() == sst_count(old(r).data@)
@@ -752,7 +752,7 @@ use super::super::*;
         assert(0 <= le32(r0.data@.subrange(4, 8)) < 0x1_0000_0000);
     }
 //@@ before /let mut sst = /
-    //# C12.sst_count_field
+    //# C12,C19.sst_count_field
     // the number of strings is cstUnique (bytes 4..8, a non-negative signed integer), not cstTotal
     assert(len == sst_count(r0.data@) && sst_count(r0.data@) >= 0);
 //@@ replace /let mut sst = Vec::with_capacity\((.*?)\);/ names the argument of the reservation (`let`-binding of an argument expression: same evaluation order, same value) so that the allocation bound is asserted on the value actually passed
@@ -767,7 +767,7 @@ let __cap: usize = \g<1>;
     let ghost f8 = frags(*r);
     let ghost mut ts: Seq<Seq<char>> = Seq::empty();
     proof {
-        //# C12.sst_header_8_bytes
+        //# C12,C19.sst_header_8_bytes
         // the strings start right after cstTotal and cstUnique
         assert(r.data@ =~= r0.data@.subrange(8, r0.data@.len() as int));
         lemma_frags_adv(r0, *r, 8);
@@ -882,7 +882,7 @@ spec fn short_hb(d: Seq<u8>, b: Biff) -> Option<bool> { if biff_has_flags(b) { S
     ensures
         //# C19.short_string_len_guard
         old(r).data@.len() < 2 <==> res is Err,
-        //# C19.short_string_text
+        //# C19,C12.short_string_text
         old(r).data@.len() >= 2 && str_fits(eff_hb(*encoding, short_hb(old(r).data@, biff)), old(r).data@.skip(short_hdr(biff)), old(r).data@[0] as int)
             ==> res is Ok && res->Ok_0@ == str_text(*encoding, eff_hb(*encoding, short_hb(old(r).data@, biff)), old(r).data@.skip(short_hdr(biff)), old(r).data@[0] as int),
         //# C19.short_string_cursor
@@ -906,28 +906,28 @@ spec fn xl_text(e: XlsEncoding, r: Seq<u8>, b: Biff) -> Seq<char> {
     str_text(e, eff_hb(e, xl_hb(r, b)), r.skip(xl_hdr(b)), le16(r))
 }
 
-//@@ fn src/xls.rs parse_string props=C19 entry ret=res
+//@@ fn src/xls.rs parse_string props=C19,C12 entry ret=res
 //@@ sig
     ensures
-        //# C19.xl_string_text
+        //# C19,C12.xl_string_text
         xl_wf(*encoding, r@, biff) ==> res is Ok && res->Ok_0@ == xl_text(*encoding, r@, biff),
         //# C19.xl_string_header_guard
         r@.len() < xl_hdr(biff) <==> res is Err,
 //@@ before /let _ = encoding\.decode_to/
     proof {
-        //# C19.xl_string_offset
+        //# C19,C12.xl_string_offset
         // the characters start right after the header (2 bytes, 3 with the BIFF8 flag byte)
         assert(r@.subrange(start as int, r@.len() as int) =~= r@.skip(xl_hdr(biff)));
         if xl_wf(*encoding, r@, biff) { lemma_dt_full(*encoding, eff_hb(*encoding, high_byte), r@.skip(xl_hdr(biff)), cch as int); }
     }
 //@@ end
 
-//@@ fn src/xls.rs parse_label props=C19 entry ret=res
+//@@ fn src/xls.rs parse_label props=C19,C12 entry ret=res
 //@@ sig
     ensures
         //# C19.label_len_guard
         r@.len() < 6 ==> res is Err,
-        //# C19.label_cell
+        //# C19,C12.label_cell
         r@.len() >= 6 && xl_wf(*encoding, r@.skip(6), biff) ==> res is Ok && res->Ok_0 is Some
             && res->Ok_0->Some_0.p() == (le16(r@) as u32, le16(r@.skip(2)) as u32)
             && res->Ok_0->Some_0.v() is String && res->Ok_0->Some_0.v()->String_0@ == xl_text(*encoding, r@.skip(6), biff),
@@ -939,10 +939,10 @@ spec fn xl_text(e: XlsEncoding, r: Seq<u8>, b: Biff) -> Seq<char> {
 //@@ end
 
 /// [MS-XLS] 2.5.296 XLUnicodeStringNoCch: flags (1 byte, bit 0 fHighByte), rgb of cch characters (cch is stored elsewhere)
-//@@ fn src/xls.rs read_unicode_string_no_cch props=C19 entry
+//@@ fn src/xls.rs read_unicode_string_no_cch props=C19,C16,C14 entry
 //@@ sig
     ensures
-        //# C19.nocch_text
+        //# C19,C16,C14.nocch_text
         buf@.len() >= 1 && str_fits(Some(buf@[0] & 0x1 != 0), buf@.skip(1), *len as int)
             ==> final(s)@ == old(s)@ + str_text(*encoding, Some(buf@[0] & 0x1 != 0), buf@.skip(1), *len as int),
         //# C19.nocch_no_flag_byte
@@ -966,12 +966,12 @@ pub uninterp spec fn fmt_of(s: Seq<char>) -> CellFormat;
     ensures r == fmt_of(format@),
 //@@ end
 
-//@@ fn src/xls.rs parse_format props=C19 entry ret=res
+//@@ fn src/xls.rs parse_format props=C19,C10 entry ret=res
 //@@ sig
     ensures
         //# C19.format_len_guard
         old(r).data@.len() < 5 <==> res is Err,
-        //# C19.format_string
+        //# C19,C10.format_string
         old(r).data@.len() >= 5 && str_fits(Some(old(r).data@[4] & 0x1 != 0), old(r).data@.skip(5), le16(old(r).data@.skip(2)))
             ==> res is Ok && res->Ok_0.0 as int == le16(old(r).data@)
             && res->Ok_0.1 == fmt_of(str_text(*encoding, Some(old(r).data@[4] & 0x1 != 0), old(r).data@.skip(5), le16(old(r).data@.skip(2)))),
@@ -983,7 +983,7 @@ pub uninterp spec fn fmt_of(s: Seq<char>) -> CellFormat;
     proof {
         let d = old(r).data@;
         if d.len() >= 5 {
-            //# C19.format_string_offset
+            //# C19,C10.format_string_offset
             // stFormat's characters start after ifmt (2), cch (2) and the flag byte (1)
             assert(r.data@ =~= d.skip(5));
             if str_fits(Some(high_byte), r.data@, cch as int) { lemma_dt_full(*encoding, Some(high_byte), r.data@, cch as int); }
